@@ -321,4 +321,99 @@ Section Codec.
         end
     | _ => (s, [])
     end.
+
+  (** ** schedules: frames taken from the port queue, interleaved with dropped-and-repeated [recv] calls *)
+  Inductive ract := RFrame (f : frame) | RReenter.
+
+  Definition bstep (s : bstate) (a : ract) : bstate * list bres :=
+    match a with RFrame f => bfeed s f | RReenter => reenter s end.
+
+  Fixpoint brun (s : bstate) (acts : list ract) : bstate * list bres :=
+    match acts with
+    | [] => (s, [])
+    | a :: r =>
+        let '(s1, o1) := bstep s a in
+        let '(s2, o2) := brun s1 r in
+        (s2, o1 ++ o2)
+    end.
+
+  Definition frames_of (acts : list ract) : list frame :=
+    flat_map (fun a => match a with RFrame f => [f] | RReenter => [] end) acts.
+
+  (** * Specification: what a sequence of send attempts means for the receiver *)
+
+  (** what one [send] left on the port *)
+  Inductive itrace :=
+  | TNothing                                   (** failed before anything was handed over *)
+  | TCut (p : list N)                          (** unfinished data message: these bytes were handed over *)
+  | TDone (b : list N)                         (** data complete, and the port batch if the value has ports *)
+  | TPortsCut (b : list N) (ps : list N).      (** data complete, port batch unfinished *)
+
+  Definition trace_atts (t : itrace) : list catt :=
+    match t with
+    | TNothing => []
+    | TCut p => [ADataCut p]
+    | TDone b => match ports_of b with [] => [ADataOk false b] | ps => [ADataOk false b; APortsOk ps] end
+    | TPortsCut b ps => [ADataOk false b; APortsCut ps]
+    end.
+
+  (** every way the chmux sender may cut an attempt into frames (credit grants decide) *)
+  Definition framed1 (a : catt) (fs : list frame) : Prop :=
+    match a with
+    | ADataOk _ b => exists cs, cs <> [] /\ concat cs = b /\ fs = data_frames true true cs
+    | ADataCut b => exists cs, concat cs = b /\ fs = data_frames true false cs
+    | APortsOk ps => exists cs, cs <> [] /\ concat cs = ps /\ fs = port_frames true true cs
+    | APortsCut ps => exists cs, concat cs = ps /\ fs = port_frames true false cs
+    end.
+
+  Inductive Framed : list catt -> list frame -> Prop :=
+  | Framed_nil : Framed [] []
+  | Framed_cons a r fa fr : framed1 a fa -> Framed r fr -> Framed (a :: r) (fa ++ fr).
+
+  Definition deliver (b : list N) : list bres :=
+    match decode b with DOk => [ROk b] | _ => [RErrDeser] end.
+
+  (** the receiver's results for one send, by limits [md] ([max_data_size]) and [rmax] ([max_item_size]) *)
+  Definition tspec (md rmax : N) (t : itrace) : list bres :=
+    match t with
+    | TNothing => []
+    | TCut p => if (md <? len p) && (rmax <? len p) then [RErrSize] else []
+    | TDone b => if rmax <? len b then [RErrSize] else deliver b
+    | TPortsCut b _ =>
+        if rmax <? len b then [RErrSize] else match decode b with DOk => [] | _ => [RErrDeser] end
+    end.
+
+  (** what a list of chmux attempts made by one [send] means *)
+  Definition atts_trace (atts : list catt) : itrace :=
+    match atts with
+    | [ADataCut p] => TCut p
+    | [ADataOk _ b] => TDone b
+    | [ADataOk _ b; APortsOk _] => TDone b
+    | [ADataOk _ b; APortsCut ps] => TPortsCut b ps
+    | _ => TNothing
+    end.
+
+  (** a sequence of sends: each item with the flow-control budget available to it (any cancellation
+      point is some budget) *)
+  Fixpoint send_all (c : scfg) (bd : Z) (l : list (item * option N)) : list (item * list catt * sres) :=
+    match l with
+    | [] => []
+    | (it, bu) :: r =>
+        let '(bd', _, atts, res) := base_send c bd bu it in
+        (it, atts, res) :: send_all c bd' r
+    end.
+
+  (** the known class (finding F12): an unfinished message that carries a complete encoding *)
+  Definition cut_complete (atts : list catt) : bool :=
+    existsb (fun a => match a with
+                      | ADataCut p => match decode p with DIncomplete => false | _ => true end
+                      | _ => false
+                      end) atts.
+
+  Definition is_ok (r : bres) : bool := match r with ROk _ => true | _ => false end.
+  Definition oks (l : list bres) : list (list N) := flat_map (fun r => match r with ROk b => [b] | _ => [] end) l.
+
+  (** the receiver can accept the value *)
+  Definition acceptable (rmax : N) (b : list N) : bool :=
+    (len b <=? rmax) && match decode b with DOk => true | _ => false end.
 End Codec.
